@@ -9,6 +9,10 @@ use std::path::Path;
 use std::sync::Arc;
 use tokio::sync::RwLock;
 
+/// Widest value range (seconds) of a zone that is recorded as one calendar range:
+/// `add_zone_range` visits every hour bucket of the range, however few values there are.
+const MAX_CALENDAR_RANGE_SECS: i64 = 366 * 86_400;
+
 pub struct TemporalIndexBuilder<'a> {
     pub uid: &'a str,
     pub segment_dir: &'a Path,
@@ -113,7 +117,15 @@ impl<'a> TemporalIndexBuilder<'a> {
                     let entry = calendars
                         .entry(field.clone())
                         .or_insert_with(|| TemporalCalendarIndex::new(field.clone()));
-                    entry.add_zone_range(zp.id, min_ts as u64, max_ts as u64);
+                    if max_ts - min_ts <= MAX_CALENDAR_RANGE_SECS {
+                        entry.add_zone_range(zp.id, min_ts as u64, max_ts as u64);
+                    } else {
+                        // Payload values too far apart to visit every bucket between them:
+                        // record only the buckets that hold a value (all a lookup needs)
+                        for &t in &ts_vals {
+                            entry.add_zone_range(zp.id, t as u64, t as u64);
+                        }
+                    }
                 }
             }
         }
